@@ -57,6 +57,16 @@ package lazy
 //@   ensures EqT(verifspec.Do(func() { e := Call(f); e.Get(); e.Get() }), verifspec.Do(func() { f() }))
 //@   ensures NoCalls() && verifspec.Do(func() { Call(f); Memoize(f) }) == 0 && TraceLen() == 0
 //
+//@ lemma tailCallOnce[T any](g func(int) T)
+//@   prop C16
+//@   option unroll=exact
+//@   ensures verifspec.Do(func() { e := TailCall(func() Eval[T] { return Done(g(7)) }); e.Get(); e.Get() }) == 0 && CalledOnce(g, 7)
+//@   tag thunkRunsOncePerEval
+//@   ensures verifspec.Do(func() { e := TailCall(func() Eval[T] { return Done(g(7)) }); Map2(e, e, func(a, b T) T { return a }).Get() }) == 0 && CalledOnce(g, 7)
+//@   tag sharedInMap2
+//@   ensures verifspec.Do(func() { TailCall(func() Eval[T] { return Done(g(7)) }) }) == 0 && TraceLen() == 0
+//@   tag lazyUntilForced
+//
 //@ lemma denMap2[T any](a, b Eval[T], f func(T, T) T)
 //@   prop C16 C01
 //@   option recfuel=6
